@@ -92,6 +92,9 @@ func (v verificationMethodValidator) verifyThumbprint(method *did.VerificationMe
 	if ecKey, ok := publicKey.(*ecdsa.PublicKey); ok && !ecKey.Curve.IsOnCurve(ecKey.X, ecKey.Y) {
 		return errors.New("unable to get JWK: EC public key is not on the curve")
 	}
+	// AssignKeyID keeps a key ID the JWK already carries, so a "kid" member declared by the document itself
+	// must not stand in for the thumbprint of the key.
+	_ = keyAsJWK.Remove(jwk.KeyIDKey)
 	_ = jwk.AssignKeyID(keyAsJWK)
 	if keyAsJWK.KeyID() != method.ID.Fragment {
 		return errors.New("key thumbprint does not match ID")
